@@ -127,6 +127,11 @@ theorem transform_no_option (m : FMsa) : transform {} m = some m := by
 theorem transform_namelen_only (n : Nat) (m : FMsa) : transform { namelen := some n } m = some m := by
   simp [transform, convertSyms]
 
+/-- away from the Clustal formats the tools' write call is `esl_msafile_Write` -/
+theorem msafileWriteTool_afa (abc : Option Abc) (m : FMsa) : msafileWriteTool "afa" abc m = msafileWrite "afa" abc m := by
+  have h : ("afa" == "clustal" || "afa" == "clustallike") = false := by decide
+  simp [msafileWriteTool, h]
+
 /-! ## unaligned output from an alignment file -/
 
 /-- line wrapping loses nothing: the 60-residue lines, concatenated, are the sequence -/
